@@ -323,9 +323,9 @@ _DICT_MUTATORS = {'pop', 'clear', 'popitem', 'update', 'setdefault', '__setitem_
 
 
 def propagate_entry_aliases(f):
-  """Copy propagation of locals that only name an entry of a local table: when every definition of v is `v = D[key]`
-  (D a local dict display, key a name or constant) and neither D's entries nor `key` can change between a definition
-  and a use, the uses of v are replaced by D[key] and the definitions dropped.  Returns the names propagated."""
+  """Copy propagation of locals that name an entry of a local table: a use of v whose only reaching definition is
+  `v = D[key]` (D a local dict display, key a name or constant), with no path from that definition to the use on which
+  D's entries or `key` can change, is replaced by D[key].  Returns the names propagated."""
   from mmsa import cfg as cfgmod
   from mmsa.core import norm, walk_no_nested
   node = f.node
@@ -333,112 +333,94 @@ def propagate_entry_aliases(f):
            if isinstance(s, ast.Assign) and isinstance(s.value, ast.Dict) and len(s.targets) == 1 and isinstance(s.targets[0], ast.Name)}
   if not dicts:
     return []
-  stores = {}     # name -> list of (stmt or None)
-  for s in walk_no_nested(node):
-    if isinstance(s, ast.Name) and isinstance(s.ctx, (ast.Store, ast.Del)):
-      par = getattr(s, '_parent', None)
-      simple = isinstance(par, ast.Assign) and len(par.targets) == 1 and par.targets[0] is s
-      stores.setdefault(s.id, []).append(par if simple else None)
-  params = {a.arg for a in node.args.posonlyargs + node.args.args + node.args.kwonlyargs}
-  cands = {}
-  for v, sts in stores.items():
-    if v in params or any(st is None for st in sts):
-      continue
-    texts = {norm(st.value) for st in sts}
-    val = sts[0].value
-    if len(texts) == 1 and isinstance(val, ast.Subscript) and isinstance(val.value, ast.Name) and val.value.id in dicts \
-        and isinstance(val.slice, (ast.Name, ast.Constant)):
-      cands[v] = sts
-  if not cands:
-    return []
   g = cfgmod.CFG(node)
-  done = []
-  for v, sts in cands.items():
-    D = sts[0].value.value.id
-    key = sts[0].value.slice
-    defnodes = {g.stmt_node[id(st)] for st in sts if id(st) in g.stmt_node}
-    if len(defnodes) != len(sts):
-      continue
-    killers, uses = set(), set()
+  rd = dataflow.Reaching(g)
+  # nested functions using a name: leave that name alone
+  captured = {x.id for fn in ast.walk(node) if fn is not node and isinstance(fn, (ast.FunctionDef, ast.Lambda)) for x in ast.walk(fn) if isinstance(x, ast.Name)}
+
+  def entry_alias(d):
+    if d.how != 'assign' or d.value is None:
+      return None
+    v = d.value
+    if isinstance(v, ast.Subscript) and isinstance(v.value, ast.Name) and v.value.id in dicts and isinstance(v.slice, (ast.Name, ast.Constant)):
+      return v
+    return None
+
+  def killers_of(D, key):
+    out = set()
     for n in g.nodes:
       st = n.ast
-      if st is None or n in defnodes:
+      if st is None:
         continue
       exprs = [n.expr] if n.kind == 'test' else [st.iter, st.target] if n.kind == 'for' else \
           [] if isinstance(st, (ast.FunctionDef, ast.ClassDef, ast.AsyncFunctionDef)) else [st] if n.kind in ('stmt', 'return', 'raisestmt') else \
           [i.context_expr for i in st.items] if n.kind == 'with' else []
       for e in exprs:
         for x in ast.walk(e):
-          if isinstance(x, ast.Name) and x.id == v and isinstance(x.ctx, ast.Load):
-            uses.add(n)
           if isinstance(x, ast.Name) and isinstance(x.ctx, (ast.Store, ast.Del)) and (x.id == D or (isinstance(key, ast.Name) and x.id == key.id)):
-            killers.add(n)
+            out.add(n)
           if isinstance(x, ast.Subscript) and isinstance(x.ctx, (ast.Store, ast.Del)) and isinstance(x.value, ast.Name) and x.value.id == D:
-            killers.add(n)
+            out.add(n)
           if isinstance(x, ast.Call) and isinstance(x.func, ast.Attribute) and isinstance(x.func.value, ast.Name) and x.func.value.id == D \
               and x.func.attr in _DICT_MUTATORS:
-            killers.add(n)
-    # nested functions using v: leave alone
-    if any(isinstance(x, ast.Name) and x.id == v for fn in ast.walk(node) if fn is not node and isinstance(fn, (ast.FunctionDef, ast.Lambda))
-           for x in ast.walk(fn)):
+            out.add(n)
+    return out
+  kcache = {}
+  replaced = {}      # id(Name node) -> replacement expression
+  for n in g.nodes:
+    st = n.ast
+    if st is None:
       continue
-    safe = True
-    for d in defnodes:
-      ok_edge = lambda a, b, lab, d=d: lab != 'exc' and (a is d or a not in defnodes)
-      from_def = g.reachable(d, ok_edge)
-      for k_ in killers & from_def:
-        after = g.reachable(k_, lambda a, b, lab: lab != 'exc' and a not in defnodes)
-        if (uses & after) - {k_} or (k_ in uses and k_ in g.reachable(k_, lambda a, b, lab: lab != 'exc' and a not in defnodes) - {k_}):
-          safe = False
-    if not safe:
-      continue
-
-    def sub(e):
-      if isinstance(e, ast.Name) and e.id == v and isinstance(e.ctx, ast.Load):
-        new = dataflow.clone(sts[0].value)
-        for a in ('lineno', 'col_offset', 'end_lineno', 'end_col_offset'):
-          if hasattr(e, a):
-            setattr(new, a, getattr(e, a))
-        return new
-      if isinstance(e, (ast.FunctionDef, ast.Lambda, ast.ClassDef)):
-        return e
-      return dataflow._map_children(e, sub)
-    drop = {id(st) for st in sts}
-
-    def block(stmts):
-      out = []
-      for st in stmts:
-        if id(st) in drop:
+    exprs = [n.expr] if n.kind == 'test' else [st.iter] if n.kind == 'for' else \
+        [] if isinstance(st, (ast.FunctionDef, ast.ClassDef, ast.AsyncFunctionDef)) else [st] if n.kind in ('stmt', 'return', 'raisestmt') else \
+        [i.context_expr for i in st.items] if n.kind == 'with' else []
+    for e in exprs:
+      for x in walk_no_nested(e) if not isinstance(e, (ast.FunctionDef,)) else []:
+        if not (isinstance(x, ast.Name) and isinstance(x.ctx, ast.Load)) or x.id in captured or x.id in dicts:
           continue
-        if isinstance(st, (ast.FunctionDef, ast.ClassDef, ast.AsyncFunctionDef)):
-          out.append(st)
+        d = rd.single_def(n, x.id)
+        if d is None:
           continue
-        out.append(sub(st))
-      return out or [ast.Pass(lineno=stmts[0].lineno if stmts else 0, col_offset=0)]
-
-    def rec(n_):
-      for fld in ('body', 'orelse', 'finalbody'):
-        if hasattr(n_, fld) and isinstance(getattr(n_, fld), list) and not isinstance(n_, (ast.Lambda, ast.IfExp)):
-          lst = getattr(n_, fld)
-          if fld != 'body' and not lst:
+        val = entry_alias(d)
+        if val is None:
+          continue
+        D, key = val.value.id, val.slice
+        kk = (D, norm(key))
+        if kk not in kcache:
+          kcache[kk] = killers_of(D, key)
+        killers = kcache[kk] - {d.node}
+        # a killer reachable from the definition from which the use is reachable, without re-executing the definition
+        from_def = g.reachable(d.node, lambda a, b, lab, dn=d.node: lab != 'exc' and (a is dn or a is not dn))
+        unsafe = False
+        for k_ in killers & from_def:
+          after = g.reachable(k_, lambda a, b, lab, dn=d.node: lab != 'exc' and a is not dn)
+          if n in after and (n is not k_ or n in g.reachable(n, lambda a, b, lab, dn=d.node: lab != 'exc' and a is not dn) - {n}):
+            unsafe = True
+            break
+          if n is k_:
+            # the use sits in the killer statement itself (e.g. D[k] = f(v)): the load happens before the store
             continue
-          for c in lst:
-            if not isinstance(c, (ast.FunctionDef, ast.ClassDef, ast.AsyncFunctionDef)):
-              rec(c)
-          new = [c for c in lst if id(c) not in drop]
-          setattr(n_, fld, new or [ast.Pass(lineno=getattr(n_, 'lineno', 0), col_offset=0)])
-      if isinstance(n_, ast.Try):
-        for hd in n_.handlers:
-          rec(hd)
-    rec(node)
-    dataflow._map_children(node, lambda c: c if isinstance(c, ast.arguments) else sub(c))
-    done.append(v)
-  if done:
-    ast.fix_missing_locations(node)
-    for n in ast.walk(node):
-      for ch in ast.iter_child_nodes(n):
-        ch._parent = n
-  return done
+        if not unsafe:
+          replaced[id(x)] = (x.id, val)
+  if not replaced:
+    return []
+
+  def sub(e):
+    if isinstance(e, ast.Name) and id(e) in replaced:
+      new = dataflow.clone(replaced[id(e)][1])
+      for a_ in ('lineno', 'col_offset', 'end_lineno', 'end_col_offset'):
+        if hasattr(e, a_):
+          setattr(new, a_, getattr(e, a_))
+      return new
+    if isinstance(e, (ast.FunctionDef, ast.Lambda, ast.ClassDef)) and e is not node:
+      return e
+    return dataflow._map_children(e, sub) if isinstance(e, ast.AST) else e
+  dataflow._map_children(node, lambda c: c if isinstance(c, ast.arguments) else sub(c))
+  ast.fix_missing_locations(node)
+  for n in ast.walk(node):
+    for ch in ast.iter_child_nodes(n):
+      ch._parent = n
+  return sorted({v for v, _ in replaced.values()})
 
 
 def _cloned(f):
@@ -533,7 +515,8 @@ def lower_repo(repo):
     c3 = unroll_literal_loops(f, only_data_driven=True)
     c4 = constant_setattr(f)
     c5 = thread_result_tests(f) if q in getattr(repo, 'flattened', {}) else False
-    c1 = c1 or c5
+    c6 = propagate_attribute_aliases(f)
+    c1 = c1 or c5 or bool(c6)
     if c1 or c2 or c3 or c4:
       done.append('%s: %s' % (q, ' + '.join(x for x, y in (('iteration forms', c1), ('conditional assignments', c2), ('attribute-table loops unrolled', c3),
                                                             ('constant setattr/getattr', c4)) if y)))
@@ -731,3 +714,57 @@ def thread_result_tests(f):
       for ch in ast.iter_child_nodes(n):
         ch._parent = n
   return changed[0]
+
+
+def propagate_attribute_aliases(f):
+  """v = self.a.b  (a plain attribute chain rooted at self or a parameter; v assigned exactly once, the chain never
+  stored to in the function)  ->  every use of v becomes self.a.b and the definition is dropped.  Makes `par =
+  self.parameters`, `agg = self.data.aggregate_time_series`, `out_of_bounds = self._constraint_not_satisfied` transparent."""
+  from mmsa.core import norm, walk_no_nested
+  node = f.node
+  params = {a.arg for a in node.args.posonlyargs + node.args.args + node.args.kwonlyargs}
+  stores = {}
+  for x in ast.walk(node):
+    if isinstance(x, ast.Name) and isinstance(x.ctx, (ast.Store, ast.Del)):
+      stores[x.id] = stores.get(x.id, 0) + 1
+  stored_chains = {norm(x) for x in ast.walk(node) if isinstance(x, ast.Attribute) and isinstance(x.ctx, (ast.Store, ast.Del))}
+
+  def chain_root(e):
+    while isinstance(e, ast.Attribute):
+      e = e.value
+    return e.id if isinstance(e, ast.Name) else None
+  cands = {}
+  for st in walk_no_nested(node):
+    if isinstance(st, ast.Assign) and len(st.targets) == 1 and isinstance(st.targets[0], ast.Name) and isinstance(st.value, ast.Attribute):
+      v = st.targets[0].id
+      root = chain_root(st.value)
+      if v in params or stores.get(v, 0) != 1 or root is None or root not in params or stores.get(root, 0):
+        continue
+      txt = norm(st.value)
+      if any(txt == c or txt.startswith(c + '.') for c in stored_chains):
+        continue
+      # the definition must dominate all uses: require it to be a top-level statement of the function body
+      if st not in node.body:
+        continue
+      first_use = min([getattr(x, 'lineno', 10**9) for x in ast.walk(node) if isinstance(x, ast.Name) and x.id == v and isinstance(x.ctx, ast.Load)] or [10**9])
+      if first_use < st.lineno:
+        continue
+      cands[v] = st
+  if not cands:
+    return []
+
+  def sub(e):
+    if isinstance(e, ast.Name) and isinstance(e.ctx, ast.Load) and e.id in cands:
+      new = dataflow.clone(cands[e.id].value)
+      for a_ in ('lineno', 'col_offset', 'end_lineno', 'end_col_offset'):
+        if hasattr(e, a_):
+          setattr(new, a_, getattr(e, a_))
+      return new
+    return dataflow._map_children(e, sub) if isinstance(e, ast.AST) else e
+  drop = {id(st) for st in cands.values()}
+  node.body = [sub(st) for st in node.body if id(st) not in drop]
+  ast.fix_missing_locations(node)
+  for n in ast.walk(node):
+    for ch in ast.iter_child_nodes(n):
+      ch._parent = n
+  return sorted(cands)
